@@ -17,24 +17,17 @@ def run_family(ctx, name: str, cases: list) -> dict:
     logging.disable(logging.CRITICAL)
     traces = [sessionsim.run_schedule(cfg, sch, seed=ctx.seed * 104729 + i) for i, (cfg, sch) in enumerate(cases)]
     findings = []
-    for off in range(0, len(traces), 2000):
-        part = traces[off : off + 2000]
-        f = ctx.tmp / f"sess-{name}-{off}.json"
-        f.write_text(json.dumps([{"rows": t["rows"]} for t in part]))
-        r = ctx.tlc("TraceSession", workers=1, env={"TRACE_FILE": str(f)}, timeout=3000)
-        if "Model checking completed" not in r.stdout:
-            raise TLCFailure("trace validation did not complete:\n" + r.stdout[-3000:])
-        f.unlink()
-        diags = {(d[0] - 1, d[1]): d[2] for d in tlaval.extract_printed(r.stdout, "DIAG")}
-        ctx.traces_validated += len(part)
-        for a, b in re.findall(r'<<"REJECT", (\d+), (\d+)>>', r.stdout):
-            idx, line = int(a) - 1, int(b)
-            t = part[idx]
-            ds = diags.get((idx, line), [])
-            fields = sorted(min(ds, key=len)) if ds else ["unexplained"]
-            row = t["rows"][line - 1] if line - 1 < len(t["rows"]) else {}
-            findings.append({"fields": fields, "cause": row.get("c"), "cfg": cases[off + idx][0], "schedule": cases[off + idx][1], "line": line,
-                             "rows": t["rows"][max(0, line - 6) : line]})
+    from vf import tracecheck
+
+    res = tracecheck.run_batch(ctx, "TraceSession", [{"rows": t["rows"]} for t in traces], batch=2000, tag=name)
+    for idx, line in res["rejected"]:
+        t = traces[idx]
+        ds = res["diags"].get((idx, line), [])
+        fields = sorted(min(ds, key=len)) if ds else ["unexplained"]
+        row = t["rows"][line - 1] if line - 1 < len(t["rows"]) else {}
+        findings.append({"fields": fields, "cause": row.get("c"), "cfg": cases[idx][0], "schedule": cases[idx][1], "line": line, "rows": t["rows"][max(0, line - 6) : line]})
+    for idx, invname in res["invariant"]:
+        findings.append({"fields": ["invariant:" + invname], "cause": "invariant", "cfg": cases[idx][0], "schedule": cases[idx][1], "line": 0, "rows": traces[idx]["rows"][-6:]})
     reach = {
         "ops_ok": sum(1 for t in traces for r in t["rows"] for d in r["dn"] if d[1] == "ok"),
         "ops_gatt_error": sum(1 for t in traces for r in t["rows"] for d in r["dn"] if d[1] == "BluetoothGATTAPIError"),
